@@ -182,6 +182,50 @@ def check_oneshot(total):
     return None
 
 
+def lookalike_data(total, kind):
+    """data that resembles blocked data: 0x40 0x40 where block trailers would sit if it were already blocked"""
+    if kind == 'all-fill':
+        return b'\x40' * total
+    d = bytearray(POS[:total] if total <= TOTAL else big_pos(total))
+    for off in range(1012, total - 1, 1014):
+        d[off:off + 2] = b'\x40\x40'
+    return bytes(d)
+
+
+def check_lookalike(total, kind):
+    """one-shot and streaming blocking of data that looks blocked already: it is data like any other"""
+    data = lookalike_data(total, kind)
+    expected = refvbs.block(data)
+    try:
+        o = io.BytesIO()
+        mciipm.block_1014(io.BytesIO(data), o)
+        one = o.getvalue()
+        f = KeepIO()
+        b = mciipm.Block1014(f)
+        for i in range(0, total, 700):
+            b.write(data[i:i + 700])
+        b.finalise()
+        streamed = f.getvalue()
+    except Exception as ex:
+        return exc_sig('lookalike-raises', ex), f'blocking {total} bytes of {kind} data raised {ex!r}'
+    for name, out in (('block_1014', one), ('Block1014', streamed)):
+        if out != expected and out != expected + FILLBLOCK:
+            return 'lookalike-malformed:' + name, f'{name} of {total} bytes of {kind} data (0x40 0x40 at the would-be trailer offsets): {refvbs.check_blocked(out, data)}'
+    return None
+
+
+def sweep_lookalike(ctx):
+    n = 0
+    for total in (1013, 1014, 1015, 2026, 2027, 2028, 2029, 2500, 3041, 3042, 3043, 4056, 5070, 10140, 64896):
+        for kind in ('all-fill', 'planted'):
+            n += 1
+            res = check_lookalike(total, kind)
+            if res:
+                ctx.report(res[0], {'lookalike': total, 'kind': kind}, res[1])
+    ctx.bulk(n, nontrivial_distinct=n, label='data-that-looks-blocked')
+    ctx.enumerated('one-shot and streamed blocking of data with 0x40 0x40 at every would-be trailer offset, 15 sizes x 2 contents')
+
+
 def boundary_lengths(fit):
     s = {0, 1, 2, 3, 4, fit - 1, fit, fit + 1, 1011, 1012, 1013, fit + 1011, fit + 1012, fit + 1013, 2023, 2024, 2025,
          fit + 2023, fit + 2024, fit + 2025, 3035, 3036, 3037}
@@ -306,6 +350,7 @@ def tasks(tier, seed):
     for lo in range(0, 1013, step):
         t.append(('sweep', dict(states=list(range(lo, min(lo + step, 1013))), full=full)))
     t.append(('sweep_oneshot', dict(lo=0, hi=3101)))
+    t.append(('sweep_lookalike', {}))
     t.append(('oneshot_large', dict(full=full)))
     for i in range(4 if not full else 16):
         t.append(('hyp_histories', dict(n=250 if not full else 1500)))
@@ -313,6 +358,8 @@ def tasks(tier, seed):
 
 
 def replay(case):
+    if 'lookalike' in case:
+        return check_lookalike(case['lookalike'], case['kind'])
     if 'oneshot' in case:
         return check_oneshot(case['oneshot'])
     if 'stream_large' in case:
